@@ -210,29 +210,61 @@ def st_payload():
     return st.lists(st.one_of(frag, st.binary(min_size=0, max_size=4)), min_size=1, max_size=5).map(b''.join).filter(lambda b: len(b) > 0).map(lambda b: b.hex())
 
 
+def st_preset():
+    """a message handed to send() that already carries MsgSeqNum n (a message object sent before, or a decoded one that is forwarded), with or without PossDupFlag / SendingTime"""
+    return st.tuples(st.integers(1, 40), st.booleans(), st.booleans())
+
+
+ADMIN_MSGTYPES = ('0', '1', '2', '3', '4', '5', 'A')
+_hist_schemas = {}
+
+
+def hist_schema(name):
+    """schema model (read from the compiled trait tables) for generated application messages"""
+    if name not in _hist_schemas:
+        ex = executor()
+        _hist_schemas[name] = fixref.load_schema(ex, name)
+        ex.close()
+    return _hist_schemas[name]
+
+
+def st_app_message(name):
+    """any application message of the schema: every mandatory field, random optional ones (optional header fields such as PossResend, OnBehalfOfCompID, SecureData included),
+    groups, data fields - C01's message generator; the header fields a session manages itself are dropped when it is handed to send()"""
+    sch = hist_schema(name)
+    return fixref.st_message(sch, mtypes=[t for t in sch.types() if t not in ADMIN_MSGTYPES], unpaired_length=False, max_elems=2)
+
+
 def st_history():
-    op = st.one_of(
-        st.tuples(st.just('send')), st.tuples(st.just('send')),
-        st.tuples(st.just('send_data'), st_payload()),
-        st.tuples(st.just('batch'), st.integers(2, 6)),
-        st.tuples(st.just('batch_data'), st.lists(st.one_of(st.none(), st_payload()), min_size=2, max_size=5)),
-        st.tuples(st.just('in_app')),
-        st.tuples(st.just('in_testreq')),
-        st.tuples(st.just('in_hb')),
-        st.tuples(st.just('in_bad'), st.sampled_from(['unknown_tag', 'missing_mandatory', 'bad_value'])),
-        st.tuples(st.just('tick')),
-        st.tuples(st.just('in_resend'), st.integers(1, 12), st.integers(0, 12)),
-        st.tuples(st.just('restart')),
-    )
-    return st.fixed_dictionaries({
-        'schema': st.sampled_from(['UTEST', 'F44']),
-        'role': st.sampled_from(['i', 'a']),
-        'persist': st.sampled_from(['mem', 'file', 'file']),
-        'start': st.one_of(st.just((0, 0)), st.just((0, 0)), st.tuples(st.integers(1, 300), st.integers(1, 300)), st.tuples(st.integers(2, 50), st.just(0)), st.tuples(st.just(0), st.integers(2, 50))),
-        'prepop': st.one_of(st.none(), st.none(), st.tuples(st.integers(1, 500), st.integers(1, 500))),
-        'wmax': st.sampled_from([0, 0, 0, 1, 7, 100]),
-        'ops': st.lists(op, min_size=1, max_size=25),
-    })
+    def per_schema(name):
+        op = st.one_of(
+            st.tuples(st.just('send')), st.tuples(st.just('send')),
+            st.tuples(st.just('send_data'), st_payload()),
+            st.tuples(st.just('batch'), st.integers(2, 6)),
+            st.tuples(st.just('batch_data'), st.lists(st.one_of(st.none(), st_payload()), min_size=2, max_size=5)),
+            st.tuples(st.just('in_app')),
+            st.tuples(st.just('in_testreq')),
+            st.tuples(st.just('in_hb')),
+            st.tuples(st.just('in_bad'), st.sampled_from(['unknown_tag', 'missing_mandatory', 'bad_value'])),
+            st.tuples(st.just('tick')),
+            st.tuples(st.just('in_resend'), st.integers(1, 12), st.integers(0, 12)),
+            st.tuples(st.just('restart')),
+            st.tuples(st.just('send_preset'), st_preset()),
+            st.tuples(st.just('batch_preset'), st.lists(st.one_of(st.none(), st_preset()), min_size=2, max_size=5)),
+            st.tuples(st.just('send_rich'), st_app_message(name)),
+            st.tuples(st.just('batch_rich'), st.lists(st_app_message(name), min_size=2, max_size=4)),
+        )
+        return st.fixed_dictionaries({
+            'always': st.sampled_from([False, False, True]),
+            'schema': st.just(name),
+            'role': st.sampled_from(['i', 'a']),
+            'persist': st.sampled_from(['mem', 'file', 'file']),
+            'start': st.one_of(st.just((0, 0)), st.just((0, 0)), st.tuples(st.integers(1, 300), st.integers(1, 300)), st.tuples(st.integers(2, 50), st.just(0)), st.tuples(st.just(0), st.integers(2, 50))),
+            'prepop': st.one_of(st.none(), st.none(), st.tuples(st.integers(1, 500), st.integers(1, 500))),
+            'wmax': st.sampled_from([0, 0, 0, 1, 7, 100]),
+            'ops': st.lists(op, min_size=1, max_size=25),
+        })
+    return st.sampled_from(['UTEST', 'F44']).flatmap(per_schema)
 
 
 class SeqHistory:
@@ -265,9 +297,10 @@ class SeqHistory:
         sessref.wipe(ex)
         clock = [T0]
         sessref.set_clock(ex, T0)
-        S = Sess(ex, schema)
+        S = Sess(ex, schema, data_tags=fixref.data_tags_of(hist_schema(schema)))
         pname = '%s:h' % case['persist']
-        flags = ('wmax=%d' % case['wmax']) if case['wmax'] else '-'
+        always = case.get('always', False)
+        flags = ','.join((['wmax=%d' % case['wmax']] if case['wmax'] else []) + (['always'] if always else [])) or '-'
         ns, nr = 1, 1                      # model: next send, next expected receive
         if case['prepop']:
             # a store left behind by an earlier run: created through a first session lifetime with configured numbers
@@ -328,7 +361,13 @@ class SeqHistory:
                 new_msgs.append(m)
                 state['ns'] = (m.seq or 0) + 1
 
-        trace.append('%s %s %s persist=%s start=%s prepop=%s wmax=%s' % (schema, 'initiator' if initiator else 'acceptor', begin, case['persist'], cfg, case['prepop'], case['wmax']))
+        trace.append('%s %s %s persist=%s start=%s prepop=%s wmax=%s%s' % (schema, 'initiator' if initiator else 'acceptor', begin, case['persist'], cfg, case['prepop'], case['wmax'],
+                                                                    ' always_seqnum_assign' if always else ''))
+        if always: cls.add('always_seqnum_assign')
+
+        def preset(p):
+            n, pd, st52 = p
+            return sessref.preset_header(n, pd, (clock[0] - 5) * 1000000000 if st52 else None)
         logon(cfg)
         oid = [0]
         nbatch = nrestart = nadmin_between = 0
@@ -362,6 +401,30 @@ class SeqHistory:
                 nbatch += 1
                 absorb(S.batch([sessref.nos_spec(i) for i in ids]), 'batch')
                 cls.add('batch')
+            elif k == 'send_rich':
+                trace.append('send generated app message 35=%s (%d header, %d body items: header tags %s)' % (op[1]['type'], len(op[1]['h']), len(op[1]['b']),
+                                                                                                              sorted(it['t'] for it in op[1]['h'] if it['t'] not in sessref.SESSION_MANAGED)))
+                absorb(S.send(sessref.app_spec(op[1])), 'send')
+                cls.add('generated_message')
+                if any(it['t'] not in sessref.SESSION_MANAGED for it in op[1]['h']): cls.add('optional_header_fields')
+            elif k == 'batch_rich':
+                trace.append('send_batch of generated app messages 35=%s' % [sp['type'] for sp in op[1]])
+                absorb(S.batch([sessref.app_spec(sp) for sp in op[1]]), 'batch')
+                cls.update(['batch', 'generated_message'])
+            elif k == 'send_preset':
+                oid[0] += 1
+                trace.append('send app o%d that already carries MsgSeqNum=%d%s%s' % (oid[0], op[1][0], ' PossDupFlag=Y' if op[1][1] else '', ' SendingTime' if op[1][2] else ''))
+                absorb(S.send(sessref.nos_spec('o%d' % oid[0], header=preset(op[1]))), 'send')
+                cls.add('preset_seqnum')
+            elif k == 'batch_preset':
+                specs, desc = [], []
+                for p in op[1]:
+                    oid[0] += 1
+                    specs.append(sessref.nos_spec('o%d' % oid[0], header='' if p is None else preset(p)))
+                    desc.append('o%d' % oid[0] if p is None else 'o%d(34=%d%s)' % (oid[0], p[0], ',43=Y' if p[1] else ''))
+                trace.append('send_batch %s' % ' '.join(desc))
+                absorb(S.batch(specs), 'batch')
+                cls.update(['batch', 'preset_seqnum'])
             elif k == 'in_app':
                 trace.append('inbound app 34=%d' % state['nr'])
                 o = S.feed(peer.msg('D', state['nr'], now, sessref.nos_toks('p%d' % state['nr'], now)))
@@ -398,6 +461,8 @@ class SeqHistory:
                 absorb(o, 'in_hb')
                 absorb(S.tick(), 'tick')
                 cls.add('tick')
+            elif k == 'in_resend' and always:
+                continue       # always_seqnum_assign renumbers whatever is sent, stored copies included: replay under that option is not part of these histories
             elif k == 'in_resend':
                 b, e = op[1], op[2]
                 if e and e < b:
@@ -434,10 +499,13 @@ class C16(SeqHistory):
                    'numbering to n (the behaviour C18 states), so the next new message is expected to carry n - the oracle does not demand more than "one greater than the '
                    'previous such message or the NewSeqNo announced in between"',
                    'the terminal Logout of a session that is shutting down is not followed by further rules (no such rule is generated)',
-                   'restart = destroy Session and Connection, build new ones on the same store (FilePersister reopened from its files; the MemoryPersister object is kept)']
+                   'restart = destroy Session and Connection, build new ones on the same store (FilePersister reopened from its files; the MemoryPersister object is kept)',
+                   'with always_seqnum_assign on, no ResendRequest is generated: that option renumbers stored copies as well, so replay under it is outside these histories']
     rule = ('Hypothesis draws role (initiator | acceptor), FIX version, store (memory | file), start numbers (default, configured through start(send,recv), or recovered from a store '
             'left by an earlier lifetime), a short-write size and a history of 1-25 operations: application send, send_batch of 2-6, inbound application message, inbound '
-            'TestRequest (answered by Heartbeat), inbound Heartbeat, inbound undecodable message (answered by Reject), clock+tick (Heartbeat), inbound ResendRequest, restart. '
+            'TestRequest (answered by Heartbeat), inbound Heartbeat, inbound undecodable message (answered by Reject), clock+tick (Heartbeat), inbound ResendRequest, restart, '
+            'and sends / batches of messages that already carry a MsgSeqNum (with or without PossDupFlag and SendingTime: an object sent before, or a decoded message that is '
+            'forwarded), under always_seqnum_assign off (they go out as PossDup retransmissions and change nothing) or on (1 in 3 histories: they are new messages and take the next number). '
             'After every step all bytes written to the socket are split into messages by an independent framer; each new message must carry exactly the model next number '
             '(start, start+1, ... across batches, admin replies and restarts, never repeated), and the persisted control record must equal (session next send, next expected '
             'receive) and the model numbers. Non-trivial: history with a batch, an admin reply between application sends, and a restart.')
@@ -867,7 +935,8 @@ class C22:
             st.tuples(st.just('send')),
             st.tuples(st.just('in_app')),
             st.tuples(st.just('in_hb'), st.booleans()),
-            st.tuples(st.just('in_testreq'), st.sampled_from(['X', 'TEST', 'id-42', '9']))
+            st.tuples(st.just('in_testreq'), st.sampled_from(['X', 'TEST', 'id-42', '9'])),
+            st.tuples(st.just('in_gap'), st.integers(1, 3)),       # an application message k numbers ahead: ResendRequest goes out; the next inbound event is the peer's gap fill
         )
         return st.fixed_dictionaries({'schema': st.sampled_from(['UTEST', 'F44']), 'role': st.sampled_from(['i', 'a']),
                                       'H': st.one_of(st.sampled_from([1, 2, 4, 5, 6, 30]), st.integers(1, 120)),
@@ -890,6 +959,7 @@ class C22:
             raise Violation('C22: setup: logon failed, state %s' % sessref.STATE_NAMES[o.st])
         last_sent = last_recv = now
         pending_since = None
+        gap_from = None                         # a ResendRequest of the session is outstanding: first missing number
         P = H + H // 5                          # the supervisor's whole-second period
         trace = ['%s %s H=%d' % (schema, case['role'], H)]
         cls = set()
@@ -961,14 +1031,36 @@ class C22:
                         pending_since = now
                         reached_tr = True
                         cls.add('testrequest_sent')
+                        if gap_from is not None:
+                            cls.add('testrequest_while_resend_outstanding')
             elif k == 'send':
                 o = S.send(sessref.nos_spec('o%d' % n))
                 trace.append('send app -> %s' % [m.type for m in o.msgs])
                 last_sent = now
             else:
+                if gap_from is not None:
+                    # the counterparty answers the outstanding ResendRequest first: one SequenceReset-GapFill over the missing numbers and the message that was ahead
+                    o = S.feed(peer.msg('4', gap_from, t, [(123, 'Y'), (36, nr)], possdup='Y', orig=t))
+                    trace.append('inbound GapFill %d -> %d -> out %s state %s' % (gap_from, nr, [m.type for m in o.msgs], sessref.STATE_NAMES[o.st]))
+                    if o.nrs != nr:
+                        fail('after the gap fill %d -> %d the session expects %d' % (gap_from, nr, o.nrs))
+                    if o.msgs:
+                        last_sent = now
+                    last_recv = now
+                    gap_from = None
+                    cls.add('gap_filled')
+                    if k == 'in_gap':
+                        continue
                 if pending_since is not None and k != 'in_hb':
                     k, e = 'in_hb', ('in_hb', True)
-                if k == 'in_app':
+                if k == 'in_gap':
+                    gap_from = nr
+                    o = S.feed(peer.msg('D', nr + e[1], t, sessref.nos_toks('g%d' % n, t))); nr += e[1] + 1
+                    trace.append('inbound app %d numbers ahead -> out %s state %s' % (e[1], [(m.type, m.get(7), m.get(16)) for m in o.msgs], sessref.STATE_NAMES[o.st]))
+                    if not any(m.type == '2' for m in o.msgs):
+                        fail('a message %d numbers ahead was not answered by a ResendRequest (out %s)' % (e[1], [m.type for m in o.msgs]))
+                    cls.add('resend_outstanding')
+                elif k == 'in_app':
                     o = S.feed(peer.msg('D', nr, t, sessref.nos_toks('p%d' % n, t))); nr += 1
                     trace.append('inbound app -> out %s' % [m.type for m in o.msgs])
                 elif k == 'in_hb':
@@ -1176,7 +1268,8 @@ class C20:
                    'gap-fills administrative messages; its gap-fills carry PossDupFlag=Y or not, both are legal)',
                    'recovery is checked at quiescence of a finite history: after the last operation the counterparty sends one more Heartbeat if anything is still missing, answers the '
                    'ResendRequest, and then the three claims are evaluated',
-                   'the counterparty answers a ResendRequest either at once or after one further new message (sent before it saw the request)']
+                   'the counterparty answers a ResendRequest either at once or after one to three further new messages - application or administrative - that it sent before it saw the '
+                   'request (every ResendRequest the session emits meanwhile is answered too, in order)']
     rule = ('Hypothesis draws FIX version, role and a history of 1-30 counterparty operations: new application message / Heartbeat / TestRequest, each either delivered or lost '
             '(sent while disconnected: numbered, stored by the counterparty, never received), application sends of the session itself, and reconnects (session restarted on its store). '
             'Whenever the session emits a ResendRequest the model answers it conformantly. Oracle: the session never emits a Logout or terminates; at quiescence every application message the '
@@ -1193,11 +1286,13 @@ class C20:
         return executor()
 
     def strategy(self):
+        early = st.sampled_from([0, 0, 1, 1, 2, 3])
+        more = st.lists(st.sampled_from(['app', 'app', 'hb', 'testreq']), min_size=3, max_size=3)
         op = st.one_of(
-            st.tuples(st.just('app'), st.booleans(), st.booleans()),
-            st.tuples(st.just('app'), st.booleans(), st.booleans()),
-            st.tuples(st.just('hb'), st.booleans(), st.booleans()),
-            st.tuples(st.just('testreq'), st.booleans(), st.booleans()),
+            st.tuples(st.just('app'), st.booleans(), early, more),
+            st.tuples(st.just('app'), st.booleans(), early, more),
+            st.tuples(st.just('hb'), st.booleans(), early, more),
+            st.tuples(st.just('testreq'), st.booleans(), early, more),
             st.tuples(st.just('own_send')),
             st.tuples(st.just('reconnect')),
         )
@@ -1302,13 +1397,22 @@ class C20:
                 cls.add('loss')
                 continue
             if pending_lost and early:
-                # the counterparty sends one more new message before it has seen the ResendRequest; only then does it answer the request
+                # the counterparty sends 1-3 more new messages (application or administrative) before it has seen the ResendRequest; only then does it answer the request(s)
                 trace.append('counterparty sends %s 34=%d' % (k, seq))
                 feed('%s 34=%d' % (k, seq), raw, defer=True)
-                seq2, raw2 = peer.new('D', now, sessref.nos_toks('p%d' % peer.pn, now), app_id='p%d' % peer.pn)
-                trace.append('counterparty sends app 34=%d before it has seen the ResendRequest' % seq2)
-                feed('app 34=%d' % seq2, raw2, defer=True)
+                more = list(op[3])[:int(early)] if len(op) > 3 else ['app']
+                for kind2 in more:
+                    if kind2 == 'app':
+                        seq2, raw2 = peer.new('D', now, sessref.nos_toks('p%d' % peer.pn, now), app_id='p%d' % peer.pn)
+                    elif kind2 == 'hb':
+                        seq2, raw2 = peer.new('0', now)
+                    else:
+                        seq2, raw2 = peer.new('1', now, [(112, 'U%d' % peer.pn)])
+                    trace.append('counterparty sends %s 34=%d before it has seen the ResendRequest' % (kind2, seq2))
+                    feed('%s 34=%d' % (kind2, seq2), raw2, defer=True)
+                    if kind2 != 'app': cls.add('admin_in_flight_before_request_seen')
                 cls.add('new_message_before_request_seen')
+                if len(more) >= 2: cls.add('several_in_flight_before_request_seen')
                 while deferred:
                     b, e = deferred.pop(0)
                     answer(b, e)
